@@ -473,13 +473,14 @@ class MemOrchestrator(BaseOrchestrator):
         new_record: InvocationStatusRecord,
     ) -> InvocationStatusRecord:
         """Sets the status record of a specific invocation."""
-        # Add to the new index before leaving the old one: concurrency control looks
-        # invocations up by status index without this invocation's lock, and must never
-        # see a PENDING/RUNNING invocation in no index at all.
+        # Order matters: concurrency control looks invocations up by status index without
+        # this invocation's lock. Enter the new index, publish the record, then leave the
+        # old index, so that an invocation whose record says PENDING/RUNNING is always
+        # found in the index of that status.
         self.status_index[new_record.status].add(invocation_id)
+        self.invocation_status_record[invocation_id] = new_record
         if prev_status_record and prev_status_record.status != new_record.status:
             self.status_index[prev_status_record.status].discard(invocation_id)
-        self.invocation_status_record[invocation_id] = new_record
         return new_record
 
     def index_arguments_for_concurrency_control(
